@@ -33,6 +33,9 @@ struct VConfig {
     bool cache_profile = true, cache_geometry = true;
 };
 
+// storage with indeterminate contents (what `new GMGPolar` gives the members its constructor does not initialise)
+inline void* vstate_storage() { return ::operator new(sizeof(GMGPolar)); }
+
 inline GMGPolar* vmake_state(void* buf, const VConfig& c)
 {
     GMGPolar* g = reinterpret_cast<GMGPolar*>(buf);
@@ -72,8 +75,8 @@ inline GMGPolar* vmake_state(void* buf, const VConfig& c)
     g->verbose_ = 0; g->paraview_ = false; g->max_omp_threads_ = c.threads; g->thread_reduction_factor_ = 1.0;
     g->stencil_distribution_method_ = static_cast<StencilDistributionMethod>(c.strategy);
     g->cache_density_profile_coefficients_ = c.cache_profile; g->cache_domain_geometry_ = c.cache_geometry;
-    g->full_grid_smoothing_ = false; g->number_of_iterations_ = 0; g->number_of_levels_ = 0;
-    g->mean_residual_reduction_factor_ = 0.0;
+    g->full_grid_smoothing_ = false;
+    // NOT initialised, exactly as by the real constructors: number_of_iterations_, number_of_levels_, mean_residual_reduction_factor_
     return g;
 }
 // f := A_l u on level l through the level's own residual operator (Dirichlet rows: f_D = u_D)
